@@ -60,6 +60,7 @@ Section TerminalW.
     - (* FROpark j *) exfalso. pose proof (runner_owned s c _ (ia_own _ HI) Hc ltac:(cbn; lia)) as Ho.
       by rewrite (term_no_runner T s HI Hterm Hnp Hfired) in Ho.
     - (* FPIdle *) right; left. by rewrite (op_bot_alone s c _ rest (i2_op _ H2) Hc eq_refl).
+    - (* FY YPpark *) exfalso. destruct pc; try done. by eapply (term_no_ypark T HA s H2 Hterm Hfired).
   Qed.
 End TerminalW.
 
@@ -73,9 +74,9 @@ Print Assumptions C04_sync_returns.
 
 (* ---------- callers that never await a future (they may desync, sync, poll-and-drop, detach, fire) always finish ---------- *)
 Definition noaw_use (u : fuse) : bool := match u with UAwait => false | _ => true end.
-Definition noaw_op (o : cop) : bool := match o with OFuture _ u | OSuspend _ u => noaw_use u | _ => true end.
+Definition noaw_op (o : cop) : bool := match o with OFuture _ u | OSuspend _ u | OFutSync _ u => noaw_use u | _ => true end.
 Definition noaw_fr (fr : frame) : bool :=
-  match fr with FTop sc => forallb noaw_op sc | FUse _ u => noaw_use u | FAwRet _ | FPark _ | FPIdle => false | _ => true end.
+  match fr with FTop sc => forallb noaw_op sc | FUse _ u | FY _ _ _ u => noaw_use u | FAwRet _ | FPark _ | FPIdle => false | _ => true end.
 Lemma noaw_wake_frames ws : forallb noaw_fr (wake_frames ws) = true. Proof. by induction ws. Qed.
 Lemma noaw_opt_wake o : forallb noaw_fr (opt_wake o) = true. Proof. by destruct o. Qed.
 Section NoAw.
